@@ -553,16 +553,26 @@ func main() {
 			hugeNext <- i
 		}
 		close(hugeNext)
-		for g := 0; g < 3; g++ {
-			wg.Add(1)
-			go func() {
-				defer wg.Done()
-				for i := range hugeNext {
-					run(i)
-				}
-			}()
+		runHuge := func() {
+			for g := 0; g < 3; g++ {
+				wg.Add(1)
+				go func() {
+					defer wg.Done()
+					for i := range hugeNext {
+						run(i)
+					}
+				}()
+			}
+		}
+		if !t.Quick() {
+			runHuge()
 		}
 		vk.Parallel(len(otherCases), func(oi int) { run(otherCases[oi]) })
+		if t.Quick() {
+			// quick: the garbage of sixteen busy goroutines makes the collector walk the huge case's 16 million
+			// strings over and over; alone it is several times faster
+			runHuge()
+		}
 		wg.Wait()
 		t.Count("cases_numbering_extremes_2^24", int64(len(hugeCases)))
 
